@@ -19,7 +19,7 @@ import c18_common as cc
 from c18_common import pick
 
 ID = 'C19'
-GEN = ['kernels']
+GEN = ['kernels', 'solve']
 PROPS = 'Props/C19.v'
 MODEL_VO = ['Model/Solve.v']
 CASE_TYPE = 'kase'
